@@ -19,6 +19,7 @@ from . import assemble
 
 VERIF = assemble.VERIF
 WORK_ROOT = os.environ.get("VERIF_WORK", "/var/tmp/verif-work")
+EVID = os.environ.get("VERIF_EVIDENCE", os.path.join(assemble.VERIF, "evidence"))
 TOTAL_MEM_GB = int(os.environ.get("VERIF_MEM_GB", "52"))
 MAX_JOBS = int(os.environ.get("VERIF_JOBS", "14"))
 
@@ -101,7 +102,8 @@ def resolve_unwindset(ob, asm, tk, fq: str) -> str:
         if fn.startswith("_R") or "::" not in fn and fn in ("memcmp", "memcpy", "memmove", "memset"):
             out.append(e)
             continue
-        hits = [(m, n) for (m, n, pretty) in loops if n == num and (pretty.strip() == fn or pretty.strip().endswith("::" + fn) or re.sub(r"::<.*>$", "", pretty.strip()).endswith("::" + fn))]
+        seg = re.compile(r"(^|::)" + re.escape(fn) + r"(::<|<|$)")
+        hits = [(m, n) for (m, n, pretty) in loops if n == num and seg.search(pretty.strip())]
         if not hits:
             # the named loop does not exist (any more): nothing to bound; every remaining loop
             # falls under the harness-wide unwind value and its unwinding assertion
@@ -307,7 +309,7 @@ def native_playback(asm: assemble.Assembly, ob, test_fn: str, test_text: str, wo
     p = subprocess.run(cmd, cwd=rp, env=env, capture_output=True, text=True, timeout=900)
     out = p.stdout + p.stderr
     reproduced = ("test result: FAILED" in out) and ("1 failed" in out)
-    passed = "test result: ok" in out
+    passed = "test result: ok. 1 passed" in out
     m = re.search(r"panicked at [^\n]*\n([^\n]*)", out)
     return {"reproduced": reproduced, "native_passed": passed, "panic": (m.group(0)[:300] if m else ""), "tail": out[-1500:]}
 
@@ -411,7 +413,7 @@ def _run(pid, spec, known, tier, seed, workdir, logdir, t0, only) -> int:
         if j.kind == "main" and j.status == "VIOLATION":
             j.replay = replay_violation(j, asm, tk, workdir)
     # keep logs of anything that is not a plain success
-    keepdir = os.path.join(VERIF, "evidence", "logs", pid)
+    keepdir = os.path.join(EVID, "logs", pid)
     shutil.rmtree(keepdir, ignore_errors=True)
     for j in jobs:
         if (j.kind == "main" and j.status != "SUCCESS") or (j.kind == "kf" and j.status == "INCONCLUSIVE"):
@@ -431,7 +433,7 @@ def finish(pid, spec, asm, tier, seed, jobs: List[Job], t0, fatal: Optional[str]
     lines = []
     violations = 0
     inconclusive = []
-    replay_dir = os.path.join(VERIF, "evidence", "replay")
+    replay_dir = os.path.join(EVID, "replay")
     os.makedirs(replay_dir, exist_ok=True)
     samples = []
     discharged = 0
@@ -463,7 +465,7 @@ def finish(pid, spec, asm, tier, seed, jobs: List[Job], t0, fatal: Optional[str]
                     lines.append("VIOLATION property=%s replay=%s" % (pid, path))
                     lines.append("  obligation=%s check=%r input=%s" % (j.ob.id, rp.get("check"), "; ".join(rp.get("decoded", []))[:300]))
                 else:
-                    inconclusive.append("%s: solver counterexample did not reproduce natively (%s)" % (j.ob.id, rp.get("error", "native run passed")))
+                    inconclusive.append("%s: solver counterexample did not reproduce natively (%s)" % (j.ob.id, rp.get("error") or ("native run passed" if rp.get("native_passed") else "native replay did not build or did not run the test")))
             else:
                 inconclusive.append("%s: %s" % (j.ob.id, j.reason))
         else:
@@ -511,8 +513,8 @@ def finish(pid, spec, asm, tier, seed, jobs: List[Job], t0, fatal: Optional[str]
     if fatal:
         ev["coverage"]["fatal"] = fatal
         # still must be schema-valid: evaluations>=1, distinct>=2 cannot be claimed -> leave measured zeros
-    os.makedirs(os.path.join(VERIF, "evidence"), exist_ok=True)
-    with open(os.path.join(VERIF, "evidence", pid + ".json"), "w") as f:
+    os.makedirs(EVID, exist_ok=True)
+    with open(os.path.join(EVID, pid + ".json"), "w") as f:
         json.dump(ev, f, indent=1)
     for l in lines:
         print(l)
